@@ -15,12 +15,47 @@ def nd(d):
     return str(d).replace(" ", "")
 
 
-class Run:
-    """One real analysis: DEX(raw) per file, Analysis.add in the given order, create_xref once."""
+_DECOY = {}
+DECOYS = [0]
+RUNS = [0]
+DECOY_EVERY = 4
 
-    def __init__(self, raws, after_add=None, xref=True):
+
+def decoy_history(which="xm3"):
+    """Before judged analyses (the first of a process -- hence every replay -- and every 4th): analyse a fixed OTHER program that uses the same class names with other
+    members (gen/xrefmodels.decoy) through the same API calls and query it; results are ignored.  State that survives from
+    one DEX / Analysis object to the next in the same process then corrupts the judged run and is reported (and reproduces
+    in the fresh-process confirmation)."""
+    from androguard.core import dex
+    from androguard.core.analysis.analysis import Analysis
+    if which not in _DECOY:
+        from gen import xrefmodels as X
+        _DECOY[which] = X.to_bytes(X.decoy(which))
+    vms = [dex.DEX(r) for r in _DECOY[which]]
+    dx = Analysis()
+    for vm in vms:
+        dx.add(vm)
+    dx.create_xref()
+    for vm in vms:
+        for c in vm.get_classes():
+            for f in c.get_fields():
+                dx.get_field_analysis(vm.get_encoded_field_descriptor(c.get_name(), f.get_name(), str(f.get_descriptor())))
+            for m in c.get_methods():
+                dx.get_method_analysis_by_name(c.get_name(), m.get_name(), str(m.get_descriptor()))
+    DECOYS[0] += 1
+
+
+class Run:
+    """One real analysis: [decoy history,] DEX(raw) per file, Analysis.add in the given order, create_xref once."""
+
+    def __init__(self, raws, after_add=None, xref=True, decoy="xm3"):
         from androguard.core import dex
         from androguard.core.analysis.analysis import Analysis
+        # decoy before the first analysis of the process (so always in a replay / fresh-process confirmation) and then before
+        # every DECOY_EVERY-th one; in between, the previously explored model (same class names, other bodies) is the history
+        if decoy and RUNS[0] % DECOY_EVERY == 0:
+            decoy_history(decoy)
+        RUNS[0] += 1
         self.vms = [dex.DEX(r) for r in raws]
         self.dx = Analysis()
         for k, vm in enumerate(self.vms):
@@ -239,7 +274,33 @@ def judge_c13(exp, run, stats=None):
             return (m.get_class_name(), m.get_name(), nd(m.get_descriptor()))
         out.append(("callgraph:edges", "get_call_graph() edges differ from the reported callees: missing %r, extra %r"
                     % (sorted((nm(a), nm(b)) for a, b in edges - cge), sorted((nm(a), nm(b)) for a, b in cge - edges))))
+    # alternative entry points must hand out the very objects the xrefs refer to
+    import re
+    n_alt = 0
+    found = collections.defaultdict(list)
+    for m in dx.find_methods():
+        found[id(m)].append(m)
+    internal, external = {id(m) for m in dx.get_internal_methods()}, {id(m) for m in dx.get_external_methods()}
+    for ma in dx.get_methods():
+        em = ma.get_method()
+        t = (em.get_class_name(), em.get_name(), str(em.get_descriptor()))
+        kind = "stub" if ma.is_external() else "defined"
+        n_alt += 1
+        if dx.get_method_analysis_by_name(*t) is not ma:
+            out.append(("alt-entry:get_method_analysis_by_name:%s" % kind, "get_method_analysis_by_name%r does not return the MethodAnalysis "
+                        "that get_methods() / the xrefs use" % (t,)))
+        if dx.get_method_by_name(*t) is not (None if ma.is_external() else em):
+            out.append(("alt-entry:get_method_by_name:%s" % kind, "get_method_by_name%r -> %r" % (t, dx.get_method_by_name(*t))))
+        ca = dx.get_class_analysis(t[0])
+        if ca is None or ca.get_method_analysis(em) is not ma or len(found.get(id(ma), ())) != 1 \
+                or (id(ma) in external) != ma.is_external() or (id(ma) in internal) == ma.is_external():
+            out.append(("alt-entry:class-or-find_methods:%s" % kind, "%r: ClassAnalysis.get_method_analysis / find_methods / "
+                        "get_internal_methods / get_external_methods disagree with get_methods()" % (t,)))
+        if len(found) <= 24 and list(dx.find_methods("^%s$" % re.escape(t[0]), "^%s$" % re.escape(t[1]), "^%s$" % re.escape(t[2]))) != [ma]:
+            out.append(("alt-entry:find_methods-filter:%s" % kind, "find_methods(exact class, name, descriptor of %r) does not yield "
+                        "exactly that MethodAnalysis" % (t,)))
     if stats is not None:
+        stats["alternative_entry_points_compared"] += n_alt
         stats["external_stubs"] += len(stubs)
         stats["external_stubs_shared_by_several_call_sites"] += sum(1 for v in stub_sites.values() if v > 1)
         stats["callgraph_edges"] += len(edges)
@@ -272,6 +333,19 @@ def judge_c14(exp, run, stats=None):
         fa = dx.get_field_analysis(e) if e is not None else None
         if fa is None or ftrip(fa) != fld:
             out.append(("field-analysis:none", "get_field_analysis() returns %r for the defined field %r" % (fa, fld)))
+            continue
+        # alternative entry points: the defining ClassAnalysis and find_fields(exact class, name, type) hand out the same object
+        import re
+        ca = dx.get_class_analysis(fld[0])
+        alt = list(dx.find_fields("^%s$" % re.escape(fld[0]), "^%s$" % re.escape(fld[1]), "^%s$" % re.escape(fld[2])))
+        if ca.get_field_analysis(e) is not fa or alt != [fa] or sum(1 for x in ca.get_fields() if x is fa) != 1:
+            extras = [x for x in alt if x is not fa]
+            # a FieldAnalysis of ANOTHER class's field filed under this (accessing) class: the duplicate of field-unique:other-class
+            dup = fa in alt and extras and all(ftrip(x)[0] != fld[0] for x in extras) and ca.get_field_analysis(e) is fa
+            out.append(("field-unique:other-class" if dup else "alt-entry:find_fields", "ClassAnalysis(%s).get_field_analysis / get_fields / find_fields(exact) disagree with "
+                        "get_field_analysis() for %r: find_fields -> %r" % (fld[0], fld, [ftrip(x) for x in alt])))
+        if stats is not None:
+            stats["alternative_entry_points_compared"] += 1
     for rel, rw in ((exp.reads, "read"), (exp.writes, "write")):
         for (me, off, op, fld) in sorted(rel):
             if fld not in exp.fields:
@@ -350,7 +424,18 @@ def judge_c15(exp, run, stats=None):
         if (ca, ma, off) not in sa.get_xref_from(with_offset=True):
             out.append((key, "%s %r at +%d in %s->%s%s is missing from StringAnalysis(%r).get_xref_from(with_offset=True): %r"
                         % ((op, val, off) + me + (val, sorted((mtrip(m), o) for _, m, o in sa.get_xref_from(with_offset=True)))), me))
+    import re
+    in_list = {id(x) for x in dx.get_strings()}
     for val, sa in sa_all.items():
+        # alternative forms: the legacy (class, method) view is the projection of the offset view; find_strings / get_strings
+        # hand out the same object
+        if set(sa.get_xref_from()) != {(c, m) for c, m, _ in sa.get_xref_from(with_offset=True)}:
+            out.append(("alt-entry:string:legacy-view", "StringAnalysis(%r).get_xref_from() is not the projection of "
+                        "get_xref_from(with_offset=True)" % val))
+        if val in exp_s and (id(sa) not in in_list or not any(x is sa for x in dx.find_strings("^%s$" % re.escape(val)))):
+            out.append(("alt-entry:string:find_strings", "find_strings / get_strings do not hand out the StringAnalysis of %r" % val))
+        if stats is not None:
+            stats["alternative_entry_points_compared"] += 1
         extra = set(sa.get_xref_from(with_offset=True)) - exp_s.get(val, set())
         if extra:
             out.append(("string:unexpected", "StringAnalysis(%r) lists uses no const-string of that value accounts for: %r"
@@ -415,7 +500,12 @@ def judge_c15(exp, run, stats=None):
     for rel, nmr in ((exp.calls, "invoke"), (exp.reads, "field"), (exp.writes, "field"), (exp.strings, "const-string")):
         for t in rel:
             item_at[(t[0], t[1])] = nmr
+    ext_ids, int_ids = {id(c) for c in dx.get_external_classes()}, {id(c) for c in dx.get_internal_classes()}
     for ca in dx.get_classes():
+        if [x for x in dx.find_classes("^%s$" % re.escape(ca.name))] != [ca] or (id(ca) in ext_ids) != ca.is_external() \
+                or (id(ca) in int_ids) == ca.is_external() or ca.is_external() != (ca.name not in exp.dex_of_class):
+            out.append(("alt-entry:class:%s" % ("external" if ca.name not in exp.dex_of_class else "internal"),
+                        "find_classes / get_internal_classes / get_external_classes / is_external disagree for %s" % ca.name))
         for op, lst in (("new-instance", ca.get_xref_new_instance()), ("const-class", ca.get_xref_const_class())):
             ok = req[op][0].get(ca.name, set()) | opt[op][0].get(ca.name, set())
             for (m, o) in set(lst) - ok:
@@ -493,6 +583,11 @@ def dump(run):
     g = dx.get_call_graph()
     for a, b in g.edges():
         cg.add(((a.get_class_name(), a.get_name(), nd(a.get_descriptor())), (b.get_class_name(), b.get_name(), nd(b.get_descriptor()))))
+    d["find_methods"] = sorted(mtrip(m) + (bool(m.is_external()),) for m in dx.find_methods())
+    d["find_fields"] = sorted(ftrip(f) for f in dx.find_fields())
+    d["by_name"] = sorted(mtrip(m) for m in dx.get_methods()
+                          if dx.get_method_analysis_by_name(m.get_method().get_class_name(), m.get_method().get_name(),
+                                                            str(m.get_method().get_descriptor())) is m)
     for k, v in (("m_to", m_to), ("m_from", m_from), ("m_read", m_read), ("m_write", m_write), ("m_new", m_new),
                  ("m_const", m_const), ("cls_to", cls_to), ("cls_from", cls_from), ("c_new", c_new), ("c_const", c_const),
                  ("f_read", f_read), ("f_write", f_write), ("s_from", s_from), ("callgraph", cg)):
@@ -535,6 +630,8 @@ def expected_dump(exp):
     }
     if exp.pool_strings is not None:
         d["strings"] = sorted(exp.pool_strings)
+    d["find_methods"], d["find_fields"] = d["methods"], d["fields"]
+    d["by_name"] = sorted(m[:3] for m in d["methods"])
     return d
 
 
@@ -588,12 +685,14 @@ def classify_diff(exp, a, b, differential):
                 keys["%s:%s" % (fam, w)].append(txt)
             elif rel == "s_from":
                 keys["string-xref:%s" % ("shared-cross-dex" if len(loaders[t[0]]) > 1 else "single-dex")].append(txt)
-            elif rel == "fields":
+            elif rel == "by_name":
+                keys["alt-entry:get_method_analysis_by_name"].append(txt)
+            elif rel in ("fields", "find_fields"):
                 ws = acc_where.get(tuple(t), ())
                 w = next((x for x in ("other-class", "cross-dex", "own-class") if x in ws), "unaccessed")
                 keys[("field-xref:%s" if differential else "field-unique:%s") % w].append(txt)
             else:
-                keys["%s-set" % rel.rstrip("s").replace("classe", "class")].append(txt)
+                keys["%s-set" % rel.replace("find_", "").rstrip("s").replace("classe", "class")].append(txt)
     # set-level differences that merely follow from an xref-level difference of the same family are dropped
     fams = {k.split(":")[0] for k in keys if ":" in k}
     if "method-xref" in fams:
@@ -618,6 +717,15 @@ def xm3_space(ctx):
             "fixed_bodies": "A.n and D.r use the same targets (sharing across methods / DEX files); B.t instantiates B itself before "
                             "D.r instantiates B; B.clone references A (after A.m<k> may have referenced A itself) and accesses "
                             "the same-named fields B.g:I / B.g:J; A.n accesses A.f:I (A.f:String only through the alphabet)",
+            "variants_of_every_single_item": ["class_defs order B,A", "generated method named z0 (processed after A.n)", "both"],
+            "far_representatives": "10 items (one per family) behind 0x8000 nops (byte offset 0x10000), alone and doubled",
+            "decoy_history": "before the first analysis of every process (so in every replay) and before every 4th one a fixed other program with the same class names LA; LB; LD; "
+                             "LC0;..LC3; but other members is analysed and queried in the same process, results ignored",
+            "alternative_entry_points": ["get_method_analysis_by_name", "get_method_by_name", "ClassAnalysis.get_method_analysis",
+                                         "find_methods (all / exact filter)", "get_internal_methods / get_external_methods",
+                                         "find_fields (exact filter)", "ClassAnalysis.get_field_analysis / get_fields",
+                                         "find_strings / get_strings / legacy get_xref_from()", "find_classes / get_internal_classes / "
+                                         "get_external_classes"],
             "max_sequence_length": 3 if ctx.thorough else 2,
             "sequences": sum(len(X.ALPHABET) ** k for k in range((3 if ctx.thorough else 2) + 1)) + len(X.ALPHABET_X),
             "batching": "bodies of length <= 2: one program per model; length 3 (thorough): the %d bodies sharing a 2-prefix are "
@@ -634,7 +742,21 @@ def xm3_shards(ctx):
 
 
 def xm3_models(shard):
-    """-> iterable of lists of sequences (one list = one model)."""
+    """-> iterable of (list of sequences, variant, far)   (one list = one model).
+    variant: bit 0 = class_defs order B, A; bit 1 = generated method named z<k> (processed after A.n); far = 0x8000 nops first."""
+    for seqs in _xm3_models(shard):
+        yield seqs, 0, False
+    if shard[0] == "base":                  # container order / processing order: every single item in the 3 other variants
+        from gen import xrefmodels as X
+        for variant in (1, 2, 3):
+            for a in range(len(X.ALPHABET)):
+                yield [(a,)], variant, False
+        for a in X.far_codes():             # one representative per family at byte offset 0x10000, alone and followed by itself
+            yield [(a,)], 0, True
+            yield [(a, a)], 0, True
+
+
+def _xm3_models(shard):
     from gen import xrefmodels as X
     n = len(X.ALPHABET)
     if shard[0] == "base":                  # simplest first: the empty body, every single item, every extended single item
@@ -657,9 +779,9 @@ class RefMismatch(Exception):
     pass
 
 
-def judge_xm3(seqs, second_first, judge, stats=None, crosscheck=True):
+def judge_xm3(seqs, second_first, judge, stats=None, crosscheck=True, variant=0, far=False):
     from gen import xrefmodels as X
-    m = X.xm3([tuple(s) for s in seqs], second_first)
+    m = X.xm3([tuple(s) for s in seqs], second_first, variant, far)
     raws = X.to_bytes(m)
     exp = RX.expected(m)
     if crosscheck:
@@ -668,6 +790,7 @@ def judge_xm3(seqs, second_first, judge, stats=None, crosscheck=True):
             raise RefMismatch("model-derived and byte-derived references disagree for %r: %r"
                               % (seqs, {k: sorted(r1[k] ^ r2[k]) for k in r1 if r1[k] != r2[k]}))
     run = Run(raws)
+    run.gen = lambda k: (X.A, X.gen_name(k, variant), "()V")       # triple of the k-th generated method
     return judge(exp, run, stats), exp, run
 
 
@@ -691,11 +814,15 @@ def explore_xm3(ctx, shard, judge, acc, orders, relevant, outcome):
     from gen import xrefmodels as X
     stats = collections.Counter()
     orders_of = orders if callable(orders) else (lambda seqs, _o=orders: _o)
-    for seqs in xm3_models(shard):
+    for seqs, variant, far in xm3_models(shard):
         orders = orders_of(seqs)
+        if variant or far:
+            acc.count("models_class_defs_order_B_A", variant & 1)
+            acc.count("models_generated_method_after_A.n", (variant >> 1) & 1)
+            acc.count("models_reference_at_offset_0x10000", int(far))
         for sf in orders:
             try:
-                res, exp, run = judge_xm3(seqs, sf, judge, stats)
+                res, exp, run = judge_xm3(seqs, sf, judge, stats, variant=variant, far=far)
             except RefMismatch as e:
                 acc.harness_error(str(e))
                 continue
@@ -711,7 +838,7 @@ def explore_xm3(ctx, shard, judge, acc, orders, relevant, outcome):
                 if key in acc.viol:
                     acc.viol[key]["count"] += 1
                     continue
-                w = {"seqs": [list(s) for s in seqs], "second_first": sf, "key": key}
+                w = {"seqs": [list(s) for s in seqs], "second_first": sf, "key": key, "variant": variant, "far": far}
                 if len(seqs) > 1:                       # a batch: look for a one-program witness of the same key
                     if culprit and culprit[0] == X.A and culprit[1][:1] == "m" and culprit[1][1:].isdigit():
                         cands = [[list(seqs[int(culprit[1][1:])])]]
@@ -728,10 +855,12 @@ def explore_xm3(ctx, shard, judge, acc, orders, relevant, outcome):
                 acc.sample({"A.m0": describe(seqs[0]), "note": "same target at two offsets"})
     for k, v in stats.items():
         acc.count(k, v)
+    acc.count("decoy_histories_run", DECOYS[0])
+    DECOYS[0] = 0
 
 
 def replay_xm3(w, judge):
-    res, _, _ = judge_xm3(w["seqs"], w.get("second_first", False), judge)
+    res, _, _ = judge_xm3(w["seqs"], w.get("second_first", False), judge, variant=w.get("variant", 0), far=w.get("far", False))
     msgs = [m for k, m, _ in res if w.get("key") in (None, k)]
     return "\n".join(msgs[:6]) if msgs else None
 
